@@ -2,7 +2,7 @@
    Proofs/JsonFacts.v (text form = specification Spec/TextOf.v), Proofs/InterpFacts.v (what is
    converted to text is closed, i.e. fully rendered).  The extracted specification text_of is
    also applied to the implementation's own rendered target on every run. *)
-From RV Require Import Model.Interp Spec.TextOf Proofs.WfFacts Proofs.InterpFacts Proofs.JsonFacts.
+From RV Require Import Model.Interp Spec.TextOf Proofs.WfFacts Proofs.InterpFacts Proofs.JsonFacts Proofs.ParserShape Proofs.TemplateRender.
 
 (** The text form of a rendered value is the specified one: strings as-is, numbers in decimal,
     True/False/None, mappings and lists as compact JSON with byte-wise sorted keys in which
@@ -50,6 +50,36 @@ Theorem C05_container_piece_is_rendered_first :
   forall f root v st v' st', wf (VMap root) -> wf v -> interp f root v st = Ok (v', st') -> closed v'.
 Proof. intros f root v st v' st' Hr Hv H. exact (proj1 (interp_closed f root v st v' st' Hr Hv H)). Qed.
 Eval cbv in "ASSUMPTIONS-OF C05_container_piece_is_rendered_first"%string. Print Assumptions C05_container_piece_is_rendered_first.
+
+(** End to end: a string mixing text and references -- any number of pieces, [segs_str] spells
+    it out: literal pieces as they are, references as `${path}` -- renders to the concatenation,
+    in order, of the literal pieces and of the specified text forms ([text_of]) of the values
+    its references render to as whole values, at the same state (so: of what a parameter
+    `p: ${path}` holds after rendering; C03 says what that is).  The state comes back unchanged. *)
+Theorem C05_template_renders_to_the_concatenation_of_piece_texts :
+  forall root, wf (VMap root) -> forall f st g1 g2 l texts,
+    Forall seg_ok (g1 :: g2 :: l) -> alternating (g1 :: g2 :: l) -> (exists c k, In (SRef c k) (g1 :: g2 :: l)) ->
+    Forall2 (piece_spec root f st) (g1 :: g2 :: l) texts ->
+    exists F, forall f', F <= f' ->
+      interp f' root (VStr (segs_str (g1 :: g2 :: l))) st = Ok (VLit (sconcat texts), st).
+Proof. exact template_renders_as_specified_text. Qed.
+Eval cbv in "ASSUMPTIONS-OF C05_template_renders_to_the_concatenation_of_piece_texts"%string. Print Assumptions C05_template_renders_to_the_concatenation_of_piece_texts.
+
+(** Non-vacuity of its premises: the template "pre ${m} post ${x:y}" over a root in which [m] is a
+    mapping with a reference inside and [x:y] a string. *)
+Example C05_template_premises_hold :
+  let root := [ mk_entry (VStr "m") (VMap [mk_entry (VStr "b") (VNum (NInt 2)) false false;
+                                           mk_entry (VStr "a") (VSeq [VStr "${x:y}"; VBool true]) false false]) false false;
+                mk_entry (VStr "x") (VMap [mk_entry (VStr "y") (VStr "q") false false]) false false ] in
+  let segs := [SText "p" "re "; SRef "m" ""; SText " " "post "; SRef "x" ":y"] in
+  segs_str segs = "pre ${m} post ${x:y}"%string /\
+  wf (VMap root) /\ Forall seg_ok segs /\ alternating segs /\
+  Forall2 (piece_spec root 60 st0) segs ["pre "; "{""a"":[""q"",true],""b"":2}"; " post "; "q"]%string.
+Proof.
+  cbn zeta. split; [reflexivity|]. split; [cbn; repeat split; repeat constructor; cbn; intuition discriminate|].
+  split; [repeat constructor|]. split; [exact I|].
+  repeat constructor; cbn [piece_spec]; eexists; eexists; split; vm_compute; reflexivity.
+Qed.
 
 (** Non-vacuity: the property's examples evaluated on the model. *)
 Example C05_nonvacuous :
